@@ -38,7 +38,9 @@ Record sb_facts := {
   sbf_indexer_noinit : bool;                  (* IndexerExpression::GetReference never auto-creates in sandbox *)
   sbf_frame_inherit : bool;                   (* nested frames inherit Sandboxed *)
   sbf_userfunc_unsafe : bool;                 (* script-defined functions are not side-effect-free *)
-  sbf_var_import_checked : bool               (* FindVarImport (bare identifier via a `using` import) reads through the checking GetField *)
+  sbf_var_import_checked : bool;              (* FindVarImport (bare identifier via a `using` import) reads through the checking GetField *)
+  sbf_purity : list (sb_name * bool)          (* registered function -> the mutation-capability analysis of its C++ body (tools/c19_purity.py)
+                                                 located every definition and found no use that can modify pre-existing state *)
 }.
 
 (* ------------------------------------------------------------------ syntax *)
@@ -392,9 +394,14 @@ Definition sb_truth (v : sb_val) : sb_M bool :=
   | _ => sb_ret true
   end.
 
-(* ------------------------------------------------------------------ builtins: the model's own classification *)
+(* ------------------------------------------------------------------ builtins
+   What a native does to the store is decided by the FACTS: [sbf_purity] (regenerated mutation-capability analysis of its
+   C++ body) and [sbf_cbguards] (its body invokes a Function argument).  A native that is not established pure may write
+   every shared cell REACHABLE from its receiver and its arguments (and the external component). *)
 Inductive sb_class := SbPure | SbMutating | SbRevealing | SbHigher.
 
+(* EXPECTED tables (hand-written, reviewed): not used by the semantics, only compared with the facts
+   ([sb_purity_as_expected]): a function newly registered side-effect-free has to be reviewed and entered here *)
 Definition sb_higher_names : list sb_name := Eval vm_compute in
   map sb_enc ["Array#sort"; "Array#map"; "Array#reduce"; "Array#filter"; "Array#any"; "Array#all"]%string.
 
@@ -421,12 +428,45 @@ Definition sb_pure_names : list sb_name := Eval vm_compute in
    "Icinga#get_event_command"; "Icinga#get_notification_command"; "Icinga#get_host_group";
    "Icinga#get_service_group"; "Icinga#get_user_group"; "Icinga#get_time_period"]%string.
 
-(* anything else (Array#add, Dictionary#set, Internal#..., log, exit, glob, modify_attribute, unknown names):
-   treated as writing its receiver resp. the protected state *)
-Definition sb_class_of (n : sb_name) : sb_class :=
-  if sb_mem n sb_higher_names then SbHigher
-  else if sb_mem n sb_pure_names then SbPure
-  else SbMutating.
+Definition sb_n_ref_get := Eval vm_compute in sb_enc "Reference#get"%string.
+
+(* the analysis established: no use in the body can modify pre-existing state *)
+Definition sb_native_pure (F : sb_facts) (n : sb_name) : bool := sb_lookupb n (sbf_purity F).
+(* the body invokes a Function argument (sort/map/reduce/filter/any/all today) *)
+Definition sb_native_higher (F : sb_facts) (n : sb_name) : bool :=
+  match sb_assoc n (sbf_cbguards F) with Some _ => true | None => false end.
+
+(* not established pure (Array#add, Dictionary#set, Internal#..., log, exit, glob, modify_attribute, unknown names, and
+   ANY native whose body the analysis flags): may write whatever it can reach *)
+Definition sb_class_of (F : sb_facts) (n : sb_name) : sb_class :=
+  if negb (sb_native_pure F n) then SbMutating
+  else if sb_native_higher F n then SbHigher
+  else SbPure.
+
+(* ---- reachability of shared cells through values: a reference to a shared cell reaches that cell and whatever its
+   fields reach; a reference to a local cell reaches what the fields of that local cell reach.  [k] bounds the length of
+   the reference chain; [sb_reach] uses the number of cells, which no simple chain exceeds. *)
+Fixpoint sb_reach_val (k : nat) (s : sb_st) (v : sb_val) : list nat :=
+  match k with
+  | O => []
+  | S k' =>
+      match v with
+      | SbVObj _ (SbShared i) | SbVRef _ (SbShared i) _ =>
+          i :: flat_map (fun p => sb_reach_val k' s (snd p)) (nth i (sbs_shared s) [])
+      | SbVObj _ (SbLocal i) | SbVRef _ (SbLocal i) _ =>
+          flat_map (fun p => sb_reach_val k' s (snd p)) (nth i (sbs_local s) [])
+      | _ => []
+      end
+  end.
+Definition sb_reach (s : sb_st) (vs : list sb_val) : list nat :=
+  flat_map (sb_reach_val (S (List.length (sbs_shared s) + List.length (sbs_local s))) s) vs.
+
+(* worst case of a native that is not established pure: every reachable shared cell is written *)
+Definition sb_clobber (vs : list sb_val) : sb_M unit :=
+  fun s => (SbROk tt,
+            {| sbs_shared := fold_left (fun sh i => sb_update i (sb_set_assoc 0 SbVOpaque) sh) (sb_reach s vs) (sbs_shared s);
+               sbs_extern := sbs_extern s; sbs_local := sbs_local s; sbs_calls := sbs_calls s; sbs_reads := sbs_reads s;
+               sbs_choices := sbs_choices s |}).
 
 Definition sb_inherit (F : sb_facts) (fr : sb_frame) : bool := sbf_frame_inherit F && sbfr_top fr.
 
@@ -662,10 +702,18 @@ Section SbStep.
     match f with
     | SbNative nm =>
         sb_log_call nm (sb_fun_safe F f) ;;;
-        match sb_class_of nm with
-        | SbPure => c <- sb_choose ;; if sbc_b c then sb_fail SbEOther else sb_ret (sbc_v c)
+        match sb_class_of F nm with
+        | SbPure =>
+            (* Reference#get is Reference::Get: m_Parent->GetFieldByName(m_Index, true, ..) - the same checked read as `*ref` *)
+            match self with
+            | SbVRef ty o idx =>
+                if nm =? sb_n_ref_get then sb_getfield F (sbf_ref_get_checked F) (SbVObj ty o) idx
+                else c <- sb_choose ;; if sbc_b c then sb_fail SbEOther else sb_ret (sbc_v c)
+            | _ => c <- sb_choose ;; if sbc_b c then sb_fail SbEOther else sb_ret (sbc_v c)
+            end
         | SbRevealing => sb_log_read (SbRdField 0 0) ;;; c <- sb_choose ;; sb_ret (sbc_v c)
         | SbMutating =>
+            sb_clobber (self :: args) ;;;
             match self with
             | SbVObj _ _ => sb_setfield self 0 (hd SbVEmpty args)
             | _ => sb_extern_write nm
@@ -724,24 +772,26 @@ Definition sb_protected (s : sb_st) : list sb_cell * list sb_name := (sbs_shared
 (* ------------------------------------------------------------------ computed premises over the facts *)
 Definition sb_all_writers_guarded (F : sb_facts) : bool :=
   forallb (fun c => sb_lookupb c (sbf_exprs F)) sb_writer_classes.
-(* every function registered side-effect-free is one the model classifies pure or higher-order *)
+(* every function registered side-effect-free is established pure by the mutation-capability analysis of its C++ body *)
 Definition sb_safe_funcs_harmless (F : sb_facts) : bool :=
-  forallb (fun p => negb (snd p) || match sb_class_of (fst p) with SbPure | SbHigher => true | _ => false end)
-          (sbf_funcs F).
+  forallb (fun p => negb (snd p) || sb_native_pure F (fst p)) (sbf_funcs F).
+(* every side-effect-free native whose body invokes a Function argument tests `Sandboxed && !IsSideEffectFree()` first *)
 Definition sb_callbacks_guarded (F : sb_facts) : bool :=
-  forallb (fun nm => sb_lookupb nm (sbf_cbguards F)) sb_higher_names.
-(* source-derived cross-check of the classification: [scan] = (name, (body located, body calls a mutator on an object
-   it did not create, or touches files/processes/registries)).  No function registered side-effect-free may have a
-   located dirty body; at least [min_located] of them must have been located (the rest is covered behaviourally). *)
-Definition sb_safe_bodies_clean (F : sb_facts) (scan : list (sb_name * (bool * bool))) (min_located : nat) : bool :=
-  forallb (fun p => negb (snd p) ||
-                    match sb_assoc (fst p) scan with Some (true, dirty) => negb dirty | _ => true end) (sbf_funcs F) &&
-  Nat.leb min_located
-    (List.length (filter (fun p => snd p && match sb_assoc (fst p) scan with Some (true, _) => true | _ => false end)
-                         (sbf_funcs F))).
-(* ... and the same scan flags every builtin the model classifies as mutating its receiver (sanity of the scan) *)
-Definition sb_scan_sees_mutators (scan : list (sb_name * (bool * bool))) (names : list sb_name) : bool :=
-  forallb (fun n => match sb_assoc n scan with Some (true, true) => true | _ => false end) names.
+  forallb (fun p => snd p || negb (sb_lookupb (fst p) (sbf_funcs F))) (sbf_cbguards F).
+(* the facts agree with the reviewed EXPECTED tables: every function registered side-effect-free is listed pure or
+   higher-order there (a new one has to be reviewed), the higher-order ones are exactly the listed ones, and no listed
+   function that is registered side-effect-free is flagged by the analysis *)
+Definition sb_purity_as_expected (F : sb_facts) : bool :=
+  forallb (fun p => negb (snd p) || sb_mem (fst p) sb_pure_names || sb_mem (fst p) sb_higher_names) (sbf_funcs F) &&
+  forallb (fun p => negb (snd p) || Bool.eqb (sb_native_higher F (fst p)) (sb_mem (fst p) sb_higher_names)) (sbf_funcs F) &&
+  forallb (fun n => negb (sb_lookupb n (sbf_funcs F)) || sb_native_pure F n) (sb_pure_names ++ sb_higher_names).
+(* sanity of the mutation-capability analysis: it locates and FLAGS every builtin known to mutate its receiver;
+   [raw] = (name, (every definition located, no problem found)) *)
+Definition sb_analysis_sees_mutators (raw : list (sb_name * (bool * bool))) (names : list sb_name) : bool :=
+  forallb (fun n => match sb_assoc n raw with Some (true, false) => true | _ => false end) names.
+(* ... and locates every function registered side-effect-free *)
+Definition sb_safe_bodies_located (F : sb_facts) (raw : list (sb_name * (bool * bool))) : bool :=
+  forallb (fun p => negb (snd p) || match sb_assoc (fst p) raw with Some (true, _) => true | _ => false end) (sbf_funcs F).
 Definition sb_container_mutators : list sb_name := Eval vm_compute in
   map sb_enc ["Array#add"; "Array#set"; "Array#remove"; "Array#clear"; "Array#freeze"; "Dictionary#set";
               "Dictionary#remove"; "Dictionary#clear"; "Dictionary#freeze"; "Namespace#set"; "Namespace#remove";
